@@ -4,4 +4,11 @@ go 1.25
 
 require github.com/gammazero/nexus/v3 v3.0.0
 
+require (
+	github.com/gammazero/deque v1.2.1 // indirect
+	github.com/gorilla/websocket v1.5.3 // indirect
+	github.com/ugorji/go/codec v1.3.1 // indirect
+	golang.org/x/crypto v0.48.0 // indirect
+)
+
 replace github.com/gammazero/nexus/v3 => /repo
